@@ -15,7 +15,13 @@ FINDING_GUARD = "all_values_f32_exact"
 NPARX = 40          # length of the PAR array handed to the compiled routines
 
 # ---------------------------------------------------------------------------------------------- impl side (worker)
+def term_str(c, factors):
+    fac = ([str(abs(c))] if abs(c) != 1 or not factors else []) + list(factors)
+    return (" - " if c < 0 else " + ") + "*".join(fac)
+
 def eq_strings(case):
+    if case.get("ops"):
+        return [e for op in case["ops"] for e in op["equations"]]
     out = []
     for (s, _), terms in zip(case["states"], case["eqs"]):
         txt = ""
@@ -28,6 +34,10 @@ def eq_strings(case):
 def build(case):
     from pyrates import CircuitTemplate, OperatorTemplate
     from pyrates.frontend.template.node import NodeTemplate
+    if case.get("ops"):      # a node made of several operators (declaration order = operators in node order)
+        ops = [OperatorTemplate(name=op["name"], equations=op["equations"], path=None,
+                                variables={k: (v if "(" in v else float(Fr(v))) for k, v in op["variables"]}) for op in case["ops"]]
+        return CircuitTemplate(name="c", nodes={"p": NodeTemplate(name="n", operators=ops, path=None)})
     vals = dict(case["states"]); pvals = dict(case["params"])
     variables = {}
     for name in case["decl"]:
@@ -198,6 +208,68 @@ def gen_case(rng, cid, n=None, compile_=False, inexact=False):
                 scenarios=scen, scen_as_str=bool(scen and len(scen) == 1 and rng.random() < 0.5), overrides=over, compile=compile_,
                 y_test=[str(Fr(rng.choice([-5, -3, 3, 5, 7]), 16)) for _ in states],
                 par_test=[str(Fr(k + 3, 8)) for k in range(NPARX)])
+
+def gen_chain(rng, cid, compile_=False, big=False):
+    """node with three operators: src (v' = ...), alg (ALGEBRAIC ONLY: m = polynomial in its own parameters and v, parameters used
+    in an order different from their declaration), dyn (x' = ... k*m ..., optionally z').  Flattened view (decl, states, params, eqs with
+    m expanded) is what the model and the numeric checks use; `ops` is what is compiled."""
+    n_src, n_alg, n_dyn = rng.randint(1, 3), rng.randint(2, 6), (rng.randint(6, 14) if big else rng.randint(2, 6))
+    names = rng.sample(POOL, n_src + n_alg + n_dyn)
+    P = [names[:n_src], names[n_src:n_src + n_alg], names[n_src + n_alg:]]
+    two = rng.random() < 0.5
+    states = ["v", "x"] + (["z"] if two else [])
+    val = lambda: str(Fr(rng.choice([k for k in range(-16, 17) if k]), 8))
+    coef = lambda: rng.choice([1, 1, -1, 2, -3])
+    sv = {s: val() for s in states}; pv = {p: val() for p in names}
+    # src
+    src_terms = [[coef(), [p], rng.choice([[], [0]])] for p in P[0]] + [[-1, [], [0]]]
+    # alg: every term carries at least one own parameter (so the expansion cannot collide with a direct term of dyn)
+    use = list(P[1])
+    while use == P[1]:
+        rng.shuffle(use)
+    alg_terms, seen = [], set()
+    for g in use:
+        t = [coef(), [g], rng.choice([[], [0], [0, 0]])]
+        alg_terms.append(t); seen.add((tuple(t[1]), tuple(t[2])))
+    if rng.random() < 0.4:
+        t = [coef(), sorted(rng.sample(P[1], 2)), [0]]
+        if (tuple(t[1]), tuple(t[2])) not in seen: alg_terms.append(t)
+    # dyn: exactly one term contains m
+    kuse = list(P[2]); rng.shuffle(kuse)
+    rows = [[], []] if two else [[]]
+    mterm = [coef(), [kuse[0]], rng.choice([[], [1]])]
+    seen = [set(), set()]
+    for i, kk in enumerate(kuse[1:]):
+        r = rng.randrange(len(rows))
+        t = [coef(), [kk], rng.choice([[], [1], [1 + r], [1, 1]])]
+        key = (tuple(t[1]), tuple(sorted(t[2])))
+        if key not in seen[r]: seen[r].add(key); rows[r].append(t)
+    for r in range(len(rows)):
+        rows[r].append([-1, [], [1 + r]])
+    if two: rows[1].append([1, [], [1]]) if ((), (1,)) not in seen[1] else None
+    sname = lambda ys: [states[i] for i in ys]
+    eq = lambda lhs, terms, extra="": (lhs + " =" + extra + "".join(term_str(c, ps + sname(ys)) for c, ps, ys in terms)).replace("= + ", "= ").replace("=  - ", "= -")
+    def variables(ps, special):
+        items = [(p, pv[p]) for p in ps]
+        for nm_, spec in special:
+            items.insert(rng.randrange(len(items) + 1), (nm_, spec))
+        return [[k, v] for k, v in items]
+    fl = lambda s_: repr(float(Fr(s_)))
+    ops = [dict(name="src_op", equations=[eq("v'", src_terms)], variables=variables(P[0], [("v", f"output({fl(sv['v'])})")])),
+           dict(name="alg_op", equations=[eq("m", alg_terms)], variables=variables(P[1], [("m", "output(0.0)"), ("v", "input(0.0)")])),
+           dict(name="dyn_op", equations=[eq("x'", rows[0], term_str(mterm[0], mterm[1] + ["m"] + sname(mterm[2])))] +
+                                         ([eq("z'", rows[1])] if two else []),
+                variables=variables(P[2], [("x", f"output({fl(sv['x'])})"), ("m", "input(0.0)")] + ([("z", f"variable({fl(sv['z'])})")] if two else [])))]
+    expanded = [[mterm[0] * c, mterm[1] + ps, sorted(mterm[2] + ys)] for c, ps, ys in alg_terms]
+    eqs = [src_terms, expanded + rows[0]] + ([rows[1]] if two else [])
+    decl = []
+    for op in ops:
+        decl += [k for k, _ in op["variables"] if k not in decl]
+    scen = rng.choice([None, None, ["eq"], ["ivp", "eq"]])
+    return dict(id=str(cid), ops=ops, decl=decl, states=[[s_, sv[s_]] for s_ in states],
+                params=[[k, v] for op in ops for k, v in op["variables"] if k in pv], eqs=eqs, scenarios=scen, scen_as_str=False,
+                overrides=({"NMX": 77} if rng.random() < 0.3 else {}), compile=compile_,
+                y_test=[str(Fr(rng.choice([-5, -3, 3, 5, 7]), 16)) for _ in states], par_test=[str(Fr(k + 3, 8)) for k in range(NPARX)])
 
 def used_params(case):
     """parameters in order of first use (with repetitions), as a guess of the equation-walk order"""
